@@ -36,7 +36,9 @@ var crashSkip = map[string]bool{
 }
 
 func edgeValue(g *core.Tape, h *harness.Host, extra []rt.Value) (rt.Value, string) {
-	strs := []string{"", "a", "abc", "%", "%d", "%s%s%s", "%99999d", "%q", "[", "[^", "%b", "%f", "(", "())", "%1", ".-", "a*a*a*a*b", strings.Repeat("x", 300), "\x00", "\xff\xfe", "1e999", "0x", "-", "nan", "i8", "!17i3", "z", "s16", "<>=!", "*a", "n", "l", "L"}
+	strs := []string{"", "a", "abc", "%", "%d", "%s%s%s", "%99999d", "%q", "[", "[^", "%b", "%f", "(", "())", "%1", ".-", "a*a*a*a*b", strings.Repeat("x", 300), "\x00", "\xff\xfe", "1e999", "0x", "-", "nan", "i8", "!17i3", "z", "s16", "<>=!", "*a", "n", "l", "L",
+		"\xff\xff\xff\xff\xff\xff\xff\xff", "\xff\xff\xff\xff\xff\xff\xff\x7f", "\x00\x00\x00\x00\x00\x00\x00\x80", "\xff\xff\xff\xff", "\x05ab", "s", "s8", "s1", "s4", "j", "J", "T", "c0", "c10", "Xi8", "!", "i16", "i17", "d", "f", " <i4 >i4 =i4",
+		"%c", "%5.2s", "%-5d", "%+.3f", "%#x", "%a", "%i", "%.99f", "%099d", "%.0s", "%5%", "%*d", "%ll", "%b()", "%f[%w]", "^$", "[]]", "[a-]", "[%a-z]", "%g+", "()", "(()", "%0", "%9", "*t", "!*t", "%Y-%m-%d", "%E", "%Ez", "%", "%c%x%X"}
 	nums := []float64{math.NaN(), math.Inf(1), math.Inf(-1), math.Copysign(0, -1), 1e308, -1e308, 0.5, 9007199254740993}
 	ints := []int64{0, 1, -1, 2, 255, 256, 65536, 0x10FFFF, 0x110000, 0x200000, 0x3FFFFFF, 0x4000000, 0x7FFFFFFF, 1 << 31, 1 << 53, math.MaxInt64, math.MinInt64, math.MaxInt64 - 1, -2, 100, 1000000}
 	switch g.Weighted(2, 4, 3, 5, 2, 2, 1, 1) {
@@ -92,7 +94,22 @@ local callself = {} setmetatable(callself, {__call = callself})
 local callchain = setmetatable({}, {__call = setmetatable({}, {__call = function(...) return select("#", ...) end})})
 local lenself = setmetatable({}, {__len = function(t) return #t end})
 local eqloop = setmetatable({}, {__eq = function(a, b) return a == b end, __lt = function(a, b) return a < b end, __concat = function(a, b) return a .. b end})
-return evil, rec, dead, susp, fresh, big, weird, function(...) return ... end, bad, io.stdout, io.stderr, selfidx, runtime.context(), callself, callchain, lenself, eqloop
+local roproxy = setmetatable({}, {__len = function() return 5 end, __index = function(t, k) return 6 - k end, __newindex = function() error("read-only") end})
+local holeproxy = setmetatable({}, {__len = function() return 6 end, __index = function(t, k) if k == 3 then error("hole") end return (k * 7) % 5 end, __newindex = function(t, k, v) rawset(t, k, v) end})
+local lenhuge = setmetatable({}, {__len = function() return math.maxinteger end, __index = function() return 1 end})
+local lenneg = setmetatable({}, {__len = function() return -5 end})
+local lenstr = setmetatable({}, {__len = function() return "3" end, __index = function(t, k) return k end})
+local lenflt = setmetatable({}, {__len = function() return 2.5 end})
+local n = 0
+local lenvar = setmetatable({}, {__len = function() n = n + 1 return n % 7 end, __index = function(t, k) return k end})
+local tsnum = setmetatable({}, {__tostring = function() return 42 end, __name = "X"})
+local always = function() return true end
+local never = function() return nil end
+local yielder = coroutine.yield
+local wrapped = coroutine.wrap(function(...) while true do coroutine.yield(...) end end)
+local mixed = {3, "a", 2.5, {}, true}
+local nums = {5, 3, 8, 1, 9, 2, 7}
+return evil, rec, dead, susp, fresh, big, weird, function(...) return ... end, bad, io.stdout, io.stderr, selfidx, runtime.context(), callself, callchain, lenself, eqloop, roproxy, holeproxy, lenhuge, lenneg, lenstr, lenflt, lenvar, tsnum, always, never, yielder, wrapped, mixed, nums
 `
 
 func corrupt(g *core.Tape, src string) (string, string) {
@@ -379,7 +396,8 @@ func runCrash(ctx *core.RunCtx) {
 		}
 	case "ramp":
 		r := ramps[g.Choose(len(ramps))]
-		n := []int{1, 2, 10, 100, 250, 255, 256, 257, 1000, 5000, 32767, 32768, 65535, 65536, 70000, 200000, 1000000}[g.Choose(17)]
+		sizes := []int{1, 2, 10, 100, 250, 254, 255, 255, 256, 256, 257, 1000, 5000, 32767, 32768, 65535, 65536, 70000, 200000, 1000000}
+		n := sizes[g.Choose(len(sizes))]
 		if g.Chance(1, 3) {
 			n += g.Choose(3) - 1
 			if n < 1 {
